@@ -1,6 +1,7 @@
 #!/bin/bash
 # Re-run every kept seeded change against the checks recorded in its meta.json (applied to /repo, undone straight afterwards).
 cd /verif
+export MZSA_EVIDENCE_DIR=$(mktemp -d /tmp/mzsa-evid.XXXXXX)
 [ -z "$(git -C /repo status --short)" ] || { echo "/repo has uncommitted changes"; exit 2; }
 fail=0
 for d in /verif/seeded/*/; do
@@ -15,4 +16,5 @@ for d in /verif/seeded/*/; do
   done
   git -C /repo checkout -- .
 done
+rm -rf "$MZSA_EVIDENCE_DIR"
 exit $fail
